@@ -257,59 +257,7 @@ func (st *fstate) call(c ssa.CallInstruction) {
 	}
 	if callee != nil {
 		if sum, ok := st.a.Sums[callee]; ok {
-			mapObj := func(k string) set {
-				if strings.HasPrefix(k, "P") {
-					var j int
-					fmt.Sscanf(k, "P%d", &j)
-					if j < len(args) {
-						return st.region(st.get(args[j]))
-					}
-					return set{}
-				}
-				if k == "Fresh" {
-					return set{st.site(res, "F"): true}
-				}
-				return set{k: true}
-			}
-			for k, w := range sum.Wr {
-				// a callee's write to its parameter region may reach anything reachable from the argument; a write to
-				// a package-level variable is a write to that variable only (what it points to is labelled separately)
-				if strings.HasPrefix(k, "P") {
-					st.write(mapObj(k), true, &Witness{Fn: st.fn, Pos: in.Pos(), What: "call " + callee.Name(), Via: w})
-				} else {
-					st.write(set{k: true}, false, &Witness{Fn: st.fn, Pos: in.Pos(), What: "call " + callee.Name(), Via: w})
-				}
-			}
-			for i, r := range sum.Ret {
-				s := set{}
-				for k := range r {
-					s.addAll(mapObj(k))
-				}
-				setRes(i, s)
-			}
-			for k, e := range sum.Esc {
-				val := set{}
-				for v := range e {
-					if v == "Fresh" {
-						val[st.site(res, "E")] = true
-						continue
-					}
-					val.addAll(mapObj(v))
-				}
-				st.store(mapObj(k), val)
-			}
-			for g := range sum.GlobalsRead {
-				if !st.sum.GlobalsRead[g] {
-					st.sum.GlobalsRead[g] = true
-					st.changed = true
-				}
-			}
-			for k, w := range sum.Unmodelled {
-				if _, ok := st.sum.Unmodelled[k]; !ok {
-					st.sum.Unmodelled[k] = &Witness{Fn: st.fn, Pos: in.Pos(), What: "call " + callee.Name(), Via: w}
-					st.changed = true
-				}
-			}
+			st.applySummary(in, callee, sum, args, setRes, res)
 			return
 		}
 		// sync.Pool is synchronised internally: Get hands out an object that is not caller memory, Put stores its
@@ -344,7 +292,86 @@ func (st *fstate) call(c ssa.CallInstruction) {
 		st.unmodelled(in, "invoke "+cc.Method.FullName(), all, setRes, nres)
 		return
 	}
+	// a call through a function-typed parameter (or captured variable): deferred to the call sites of this function
+	pidx := -1
+	switch pv := cc.Value.(type) {
+	case *ssa.Parameter:
+		for i, q := range st.fn.Params {
+			if q == pv {
+				pidx = i
+			}
+		}
+	case *ssa.FreeVar:
+		for i, q := range st.fn.FreeVars {
+			if q == pv {
+				pidx = len(st.fn.Params) + i
+			}
+		}
+	}
+	if pidx >= 0 {
+		pc := ParamCall{Param: pidx, Pos: in.Pos()}
+		all := set{}
+		for _, a := range cc.Args {
+			r := set{}
+			if pointerLike(a.Type()) {
+				r = st.region(st.get(a))
+			}
+			pc.Args = append(pc.Args, r)
+			all.addAll(r)
+		}
+		st.sum.addParamCall(pc, &st.changed)
+		if v, ok := in.(ssa.Value); ok {
+			all[st.site(v, "F")] = true
+		}
+		for i := 0; i < nres; i++ {
+			setRes(i, all)
+		}
+		return
+	}
+	// a call through a function value read from a table kept in a package-level variable of the module: any of the
+	// functions stored in that variable
+	if g := rootGlobal(cc.Value); g != nil {
+		if cands := st.a.P.GlobalFuncs()[g]; len(cands) > 0 {
+			okAll := true
+			for _, c := range cands {
+				if st.a.Sums[c] == nil || len(c.FreeVars) > 0 {
+					okAll = false
+				}
+			}
+			if okAll {
+				for _, c := range cands {
+					st.applySummary(in, c, st.a.Sums[c], cc.Args, setRes, res)
+				}
+				return
+			}
+		}
+	}
 	st.unmodelled(in, "dynamic call "+cc.Value.String(), append([]ssa.Value{cc.Value}, cc.Args...), setRes, nres)
+}
+
+// rootGlobal: the module package-level variable a value is loaded from (through element and field addresses).
+func rootGlobal(v ssa.Value) *ssa.Global {
+	for i := 0; i < 8; i++ {
+		switch x := v.(type) {
+		case *ssa.UnOp:
+			v = x.X
+		case *ssa.IndexAddr:
+			v = x.X
+		case *ssa.FieldAddr:
+			v = x.X
+		case *ssa.Index:
+			v = x.X
+		case *ssa.Field:
+			v = x.X
+		case *ssa.ChangeType:
+			v = x.X
+		case *ssa.Global:
+			return x
+		default:
+			return nil
+		}
+	}
+	return nil
 }
 
 func (st *fstate) applyModel(in ssa.Instruction, m *model, args []ssa.Value, _ int, setRes func(int, set), nres int, res ssa.Value, what string) {
@@ -395,5 +422,143 @@ func (st *fstate) unmodelled(in ssa.Instruction, name string, args []ssa.Value, 
 	}
 	for i := 0; i < nres; i++ {
 		setRes(i, all)
+	}
+}
+
+// applySummary applies the summary of a module function to a call with the given operands (parameters first, then
+// the bindings of its free variables).
+func (st *fstate) applySummary(in ssa.Instruction, callee *ssa.Function, sum *Summary, args []ssa.Value, setRes func(int, set), res ssa.Value) {
+	mapObj := func(k string) set {
+		if strings.HasPrefix(k, "P") {
+			var j int
+			fmt.Sscanf(k, "P%d", &j)
+			if j < len(args) {
+				return st.region(st.get(args[j]))
+			}
+			return set{}
+		}
+		if k == "Fresh" {
+			return set{st.site(res, "F"): true}
+		}
+		return set{k: true}
+	}
+	for k, w := range sum.Wr {
+		// a callee's write to its parameter region may reach anything reachable from the argument; a write to
+		// a package-level variable is a write to that variable only (what it points to is labelled separately)
+		if strings.HasPrefix(k, "P") {
+			st.write(mapObj(k), true, &Witness{Fn: st.fn, Pos: in.Pos(), What: "call " + callee.Name(), Via: w})
+		} else {
+			st.write(set{k: true}, false, &Witness{Fn: st.fn, Pos: in.Pos(), What: "call " + callee.Name(), Via: w})
+		}
+	}
+	for i, r := range sum.Ret {
+		s := set{}
+		for k := range r {
+			s.addAll(mapObj(k))
+		}
+		setRes(i, s)
+	}
+	for k, e := range sum.Esc {
+		val := set{}
+		for v := range e {
+			if v == "Fresh" {
+				val[st.site(res, "E")] = true
+				continue
+			}
+			val.addAll(mapObj(v))
+		}
+		st.store(mapObj(k), val)
+	}
+	for g := range sum.GlobalsRead {
+		if !st.sum.GlobalsRead[g] {
+			st.sum.GlobalsRead[g] = true
+			st.changed = true
+		}
+	}
+	for k, w := range sum.Unmodelled {
+		if _, ok := st.sum.Unmodelled[k]; !ok {
+			st.sum.Unmodelled[k] = &Witness{Fn: st.fn, Pos: in.Pos(), What: "call " + callee.Name(), Via: w}
+			st.changed = true
+		}
+	}
+
+	// functions the callee calls through its function-typed parameters: resolved here, where the operand is known
+	for _, pc := range sum.ParamCalls {
+		var g *ssa.Function
+		var binds []ssa.Value
+		if pc.Param < len(args) {
+			g, binds = resolveFuncValue(args[pc.Param])
+		}
+		gsum := st.a.Sums[g]
+		if g == nil || gsum == nil {
+			st.unmodelled(in, "function value passed to "+callee.Name(), args, setRes, 0)
+			continue
+		}
+		target := func(k string) set {
+			if strings.HasPrefix(k, "P") {
+				var j int
+				fmt.Sscanf(k, "P%d", &j)
+				if j < len(g.Params) {
+					out := set{}
+					if j < len(pc.Args) {
+						for kk := range pc.Args[j] {
+							out.addAll(mapObj(kk))
+						}
+					}
+					return out
+				}
+				if bi := j - len(g.Params); bi < len(binds) {
+					return st.region(st.get(binds[bi]))
+				}
+				return set{}
+			}
+			if k == "Fresh" {
+				return set{}
+			}
+			return set{k: true}
+		}
+		for k, w := range gsum.Wr {
+			if strings.HasPrefix(k, "P") {
+				st.write(target(k), true, &Witness{Fn: st.fn, Pos: in.Pos(), What: "call " + callee.Name() + " (calls its operand " + g.Name() + ")", Via: w})
+			} else {
+				st.write(set{k: true}, false, &Witness{Fn: st.fn, Pos: in.Pos(), What: "call " + callee.Name() + " (calls its operand " + g.Name() + ")", Via: w})
+			}
+		}
+		for k, e := range gsum.Esc {
+			val := set{}
+			for v := range e {
+				val.addAll(target(v))
+			}
+			st.store(target(k), val)
+		}
+		for k, w := range gsum.Unmodelled {
+			if _, ok := st.sum.Unmodelled[k]; !ok {
+				st.sum.Unmodelled[k] = &Witness{Fn: st.fn, Pos: in.Pos(), What: "call " + callee.Name(), Via: w}
+				st.changed = true
+			}
+		}
+		if len(gsum.ParamCalls) > 0 {
+			st.unmodelled(in, "function value passed on by "+g.Name(), args, setRes, 0)
+		}
+	}
+}
+
+// resolveFuncValue: the function (and the bindings of its free variables) a function-typed operand denotes, when it is
+// a function or a closure created at the call site.
+func resolveFuncValue(v ssa.Value) (*ssa.Function, []ssa.Value) {
+	for {
+		switch x := v.(type) {
+		case *ssa.Function:
+			return x, nil
+		case *ssa.MakeClosure:
+			if f, ok := x.Fn.(*ssa.Function); ok {
+				return f, x.Bindings
+			}
+			return nil, nil
+		case *ssa.ChangeType:
+			v = x.X
+		default:
+			return nil, nil
+		}
 	}
 }
